@@ -200,3 +200,10 @@ Proof.
   destruct (step w o) as [[w1 evs] r]. cbn [fst] in H1.
   specialize (IH s w1 pi k Hk H1). destruct (run_from w1 ops) as [w2 tr]. exact IH.
 Qed.
+
+(* non-vacuity: after Build, CreateScope and Close the closed scope meets the premise (and is empty) *)
+Example a_closed_scope_is_frozen :
+  let r1 := mkReg 1 Scoped (FCtor false [] [9] false) 0 0 [] [] [9] [false] 0 in
+  let w := fst (run_from init_world [OAdd r1; OBuild []; OCreateScope 0 0 0; OResolve 0 1 9 0; OClose 0 1 []]) in
+  frozen_in (mkScope 0 0 [] [] false) w 0 1.
+Proof. vm_compute. repeat split; lia. Qed.
